@@ -52,17 +52,13 @@ def check(ctx: Ctx) -> None:
     ctx.ob("C01.config", "keep_all_tokens", not opts["keep_all_tokens"] and not any(r.keep_all_tokens for r in g.rules),
            "keep_all_tokens is set: operator and bracket tokens become tree children", file=FILE, line=g.lark_call.lineno)
     # the cached parse function uses this parser object on its own parameter
-    users = []
-    for fn in model.functions.values():
-        if fn.module is g.module:
-            for n in ast.walk(fn.node):
-                if isinstance(n, ast.Call) and isinstance(n.func, ast.Attribute) and n.func.attr == "parse" and \
-                        isinstance(n.func.value, ast.Name) and n.func.value.id == g.parser_var:
-                    users.append((fn, n))
-    pf = model.func(f"{G.COND_MOD}.parse_condition_expression_to_tree")
-    ctx.ob("C01.config", "parse-call", any(fn is pf and len(n.args) == 1 and isinstance(n.args[0], ast.Name) and n.args[0].id in pf.params and not n.keywords
-                                           for fn, n in users),
-           f"parse_condition_expression_to_tree does not call {g.parser_var}.parse(<its own argument>)", file=FILE, line=pf.node.lineno, function=pf.qualname)
+    d = g.discovery
+    pf = d["fn"]
+    calls = d["calls"]
+    good = len(calls) == 1 and len(calls[0]["args"]) == 1 and calls[0]["args"][0] is d["arg"] and not calls[0]["kwargs"] and d["returns_parse_result"]
+    ctx.ob("C01.config", "parse-call", good,
+           f"parse_condition_expression_to_tree does not return <the Lark parser>.parse(<its own argument>): parse calls {[(c['args'], c['kwargs']) for c in calls]}, "
+           f"result is the parser's tree: {d['returns_parse_result']}", file=FILE, line=pf.node.lineno, function=pf.qualname)
     # ---- shape of the start rule
     start = g.start
     alts = g.rules_of(start)
